@@ -75,7 +75,7 @@ pub fn cli(args: &[String]) -> i32 {
                 eprintln!("usage: dst replay <file>");
                 return 2;
             };
-            cmd_replay(path, args.iter().any(|a| a == "--dump"))
+            cmd_replay(path, args.iter().any(|a| a == "--dump"), args.iter().any(|a| a == "--fresh"))
         }
         Some("selftest") => match args.get(1).map(|s| s.as_str()) {
             Some("determinism") => {
@@ -162,7 +162,7 @@ pub fn cli(args: &[String]) -> i32 {
     }
 }
 
-fn cmd_replay(path: &str, dump: bool) -> i32 {
+fn cmd_replay(path: &str, dump: bool, fresh: bool) -> i32 {
     let Ok(s) = std::fs::read_to_string(path) else {
         eprintln!("cannot read {}", path);
         return 2;
@@ -175,7 +175,7 @@ fn cmd_replay(path: &str, dump: bool) -> i32 {
         }
     };
     let props: Vec<String> = vec![rf.property.clone()];
-    match run_forked(&rf.plan, Some(rf.choices.clone()), false, &props, dump, crate::runner::child_timeout_ms()) {
+    match run_forked(&rf.plan, if fresh { None } else { Some(rf.choices.clone()) }, false, &props, dump, crate::runner::child_timeout_ms()) {
         ChildResult::Crashed(m) => {
             eprintln!("harness error: {}", m);
             2
